@@ -77,7 +77,7 @@ func (u *Universe) WithNonce(a *app.ShutterApp, o Op) Tx {
 
 // Enabled mirrors ShuttermintMC!Enabled.
 func (u *Universe) Enabled(a *app.ShutterApp, o Op) bool {
-	if o.Rn != "replay" {
+	if o.Rn != "replay" && o.Rn != "forged" {
 		return true
 	}
 	return len(a.NonceTracker.RandomNonces[u.Addr(o.Tx.S)]) > 0
